@@ -3,7 +3,8 @@
 // is derived from the proposal and whose Save is logged. Process / Save / Cancel are called
 // sequentially (every sequence of a given length over a small alphabet) and from several
 // goroutines (seeded random); call / return / writer-save events go to spec/BlockSaveTrace.tla
-// (binding B).
+// (binding B). force.go forces the controller schedules of spec/BlockSaveLock.tla: the stub writer's Manifest
+// and Save park on gates, so that calls queue behind a running processor / a block write in a chosen order.
 package c11
 
 import (
@@ -142,6 +143,12 @@ func (w *writer) Save(context.Context) (base.BlockMap, error) {
 
 	w.r.emit(e)
 
+	// forced schedules: the block "is being written" (ProposalProcessors.l is held meanwhile) until the
+	// controller opens the writer gate of this proposal
+	if g := w.r.wgates[w.p.f]; g != nil {
+		<-g
+	}
+
 	return nil, nil
 }
 
@@ -155,6 +162,7 @@ type runner struct {
 	pps    *isaac.ProposalProcessors
 	ids    int
 	gates  map[string]chan struct{} // forced schedules only: proposal -> gate of its processor
+	wgates map[string]chan struct{} // forced schedules only: proposal -> gate of its BlockWriter.Save
 	events []ev                     // forced schedules only: the events of this schedule
 }
 
@@ -198,8 +206,11 @@ func newRunner(out *h.Out, seed int64, jitter bool) (*runner, error) {
 
 	if out == nil { // forced schedules (force.go): every processor parks at the gate of its proposal
 		r.gates = map[string]chan struct{}{}
+		r.wgates = map[string]chan struct{}{}
+
 		for _, p := range props {
 			r.gates[p.f] = make(chan struct{})
+			r.wgates[p.f] = make(chan struct{})
 		}
 	}
 
